@@ -119,6 +119,13 @@ CLAIMS = {
             "Convergence at quiescence as a theorem is not decided.",
             "Trusted: constant store write latency; handlers atomic (checked).",
             "DESIGN.md §5 C17"),
+    "C18": ("decision tables by abstract evaluation of the clock methods over all input orderings; lattice-shape (join operator / purity / inflation) checks of every CRDT merge and mutator; to_dict/from_dict schema agreement",
+            "Decides the algebraic-shape clauses: Lamport/HLC updates end strictly above the local and the received timestamp for every ordering of their inputs (297 cases); "
+            "vector receive = element-wise max + own tick, happened_before = ∀≤ ∧ ∃<; each CRDT merge is the component-wise join (max / union / tombstone union / greater timestamp), pure in its argument, "
+            "every mutator inflates, equality and value read the joined state; to_dict/from_dict agree on keys, carry every slot and apply no lossy conversion; CRDTStore merges only through merge() "
+            "under its own replica identity. The vector-clock iff direction over real histories and the numeric clock-skew models are not decided.",
+            "Trusted: node ids distinct; handlers atomic (checked).",
+            "DESIGN.md §5 C18"),
 }
 
 NOT_YET = "rule pack not built yet in this session (see DESIGN.md §11); no check is claimed for it"
